@@ -273,7 +273,7 @@ def gen_limit_scenario(rng, tier, style=None):
 # ------------------------------------------------------------------------------- suites for the join family
 def join_generate(variants, styles=None):
     def generate(rng, tier):
-        n = 200 if tier == "quick" else 3000
+        n = 400 if tier == "quick" else 3000
         out = []
         for variant in variants:
             for _ in range(n):
@@ -438,7 +438,7 @@ JOIN_RULE = ("random timed scenarios inside a testing/synctest bubble (exact fak
 # ------------------------------------------------------------------------------------- suites for limit
 def limit_generate(styles=None):
     def generate(rng, tier):
-        n = 300 if tier == "quick" else 5000
+        n = 600 if tier == "quick" else 5000
         return [gen_limit_scenario(rng, tier, style=rng.choice(styles) if styles else None) for _ in range(n)]
     return generate
 
@@ -560,7 +560,7 @@ def join_stop_variants(sc):
 
 def join_stop_generate():
     def generate(rng, tier):
-        n = 100 if tier == "quick" else 3000
+        n = 240 if tier == "quick" else 3000
         return [gen_join_scenario(rng, 2, tier, stop=("unreleased" if i % 3 == 0 else True)) for i in range(n)]
     return generate
 
